@@ -2,15 +2,21 @@
 //
 // ORACLE (on the implementation only, long double / brute force):
 //   sort          : values ordered, index vector a permutation, sorted[i] == x[idx[i]] (bitwise)
-//   median        : middle order statistic found by counting (n <= 128) / by an independent stable sort
-//   MedianFilter  : brute-force median of the last n samples of (init^n ++ stream), any framing
-//   medfilt       : brute-force median of the centred, zero-padded window x[k-n/2 .. k+n2]
+//   median        : middle order statistic found by counting (n <= 128) / by an independent stable sort; EXACT comparison
+//   MedianFilter  : brute-force median of the last n samples of (init^n ++ stream), any framing; EXACT comparison;
+//                   every OBJECT (copies, moves, banks, assignment) against the median of its own history
+//   medfilt       : brute-force median of the centred, zero-padded window x[k-n/2 .. k+n2]; EXACT comparison
 //   corr          : O(n^2) long-double definitions of Pearson r, Spearman rho, Kendall tau;
 //                   symmetry, range, +-1 for strictly monotone (affine for Pearson) relations
+// Inputs: content classes (order structure) x value classes (which doubles: 1-ulp clusters, 2^52 integers, denormals, +-0,
+// scales 1e-300..1e300, powers of two), large single calls after small ones, failed calls in the history.
 // CORR: a representative subset of every class goes to the Lean model (Model/Order.lean).
 #include "common.hpp"
 #include <algorithm>
 #include <numeric>
+#include <list>
+#include <memory>
+#include <type_traits>
 using namespace dsplib;
 typedef long double ld;
 static vh::Out out;
@@ -41,7 +47,121 @@ static std::vector<double> gen(vh::Rng& r, int n, int cls) {
     case SAW: { const int p = r.range(2, 9); for (int i = 0; i < n; ++i) x[i] = double(i % p) - 1.0; break; }
     case TWOVAL: { const double a = r.gauss(), b = r.gauss(); for (auto& v : x) v = r.coin() ? a : b; break; }
     }
-    for (auto& v : x) if (v == 0) v = 0.0;   // no -0.0: its order against +0.0 is unspecified
+    for (auto& v : x) if (v == 0) v = 0.0;   // no -0.0 in the CONTENT classes (the value classes v_denorm, v_zeros, v_mixscale have both zeros)
+    return x;
+}
+
+// ------------------------------------------------------------------------------------ value classes
+// The content classes above vary the ORDER structure (ties, runs, direction); the value classes vary WHICH doubles occur:
+// every entry point only compares (<, !=) and, for an even window, averages two values, so the property holds for all of
+// them and the oracles are exact.
+//   ulp      : clusters of adjacent doubles (nextafter chains, 1..3 ulps wide) around 1..3 bases at any scale, mixed with exact
+//              repeats; arrangements random / rising chain / falling chain / sawtooth of a chain
+//   int52    : integers in [2^52, 2^53) (consecutive integers are consecutive doubles): offsets 0..7, top of the range,
+//              jittered time stamps 2^52 + 3 i + (0..7) with outliers, mixed signs
+//   denorm   : k * denorm_min, |k| <= 4, both zeros
+//   zeros    : +0 / -0 mixed with +-denorm_min, +-DBL_MIN, +-1
+//   scale    : one absolute scale of 1e-300, 1e-17, 1e-8, 1, 1e8, 1e100, 1e300 (continuous or a 7-level alphabet)
+//   pow2     : exact powers of two 2^e, e from the denormal range to 2^1000, and their neighbours -2..+2 ulps (the spacing
+//              of doubles changes at a power of two)
+//   mixscale : every element at its own scale (huge and tiny in one window), exact repeats and zeros in between
+enum VCls { V_ULP = 0, V_INT52, V_DENORM, V_ZEROS, V_SCALE, V_POW2, V_MIXSCALE, NVCLS };
+static const char* vcls_name(int c) {
+    static const char* n[] = {"v_ulp", "v_int52", "v_denorm", "v_zeros", "v_scale", "v_pow2", "v_mixscale"};
+    return n[c];
+}
+static const double SCALES[7] = {1e-300, 1e-17, 1e-8, 1.0, 1e8, 1e100, 1e300};
+static const double DMIN = 4.9406564584124654e-324, TWO52 = 4503599627370496.0;
+static double step_ulp(double v, int k) {
+    for (; k > 0; --k) v = std::nextafter(v, INFINITY);
+    for (; k < 0; ++k) v = std::nextafter(v, -INFINITY);
+    return v;
+}
+static std::vector<double> genv(vh::Rng& r, int n, int vcls) {
+    std::vector<double> x(n);
+    switch (vcls) {
+    case V_ULP: {
+        const int nb = r.range(1, 3), width = r.range(1, 3), arr = r.range(0, 5);
+        double base[3];
+        for (int b = 0; b < 3; ++b) base[b] = (r.coin() ? 1 : -1) * (0.5 + r.unit()) * SCALES[r.range(0, 6)];
+        if (r.range(0, 5) == 0) base[0] = TWO52 * (r.coin() ? 1 : -1);
+        if (arr <= 2) {   // random members of the clusters
+            for (auto& v : x) v = step_ulp(base[r.range(0, nb - 1)], r.range(0, width));
+        } else if (arr == 3 || arr == 4) {   // strictly rising / falling chain, 1 ulp per sample
+            double v = base[0];
+            for (int i = 0; i < n; ++i) { x[i] = v; v = std::nextafter(v, arr == 3 ? INFINITY : -INFINITY); }
+        } else {   // sawtooth over a chain
+            const int p = r.range(2, 9);
+            for (int i = 0; i < n; ++i) x[i] = step_ulp(base[0], i % p);
+        }
+        break;
+    }
+    case V_INT52: {
+        const int sub = r.range(0, 3);
+        for (int i = 0; i < n; ++i) {
+            switch (sub) {
+            case 0: x[i] = TWO52 + double(r.range(0, 7)); break;
+            case 1: x[i] = 2 * TWO52 - 1 - double(r.range(0, 7)); break;
+            case 2: x[i] = TWO52 + 3.0 * i + double(r.range(0, 7)) + (r.range(0, 49) == 0 ? 1000.0 : 0.0); break;
+            default: x[i] = (r.coin() ? 1 : -1) * (TWO52 + double(r.range(0, 3))); break;
+            }
+        }
+        break;
+    }
+    case V_DENORM: {
+        const int K = r.range(1, 4);
+        for (auto& v : x) { const int k = r.range(-K, K); v = k == 0 ? (r.coin() ? 0.0 : -0.0) : k * DMIN; }
+        break;
+    }
+    case V_ZEROS: {
+        static const double tab[12] = {0.0, -0.0, 0.0, -0.0, 0.0, -0.0, DMIN, -DMIN, 2.2250738585072014e-308, -2.2250738585072014e-308, 1.0, -1.0};
+        const int top = r.range(1, 11);   // 1: only the two zeros
+        for (auto& v : x) v = tab[r.range(0, top)];
+        break;
+    }
+    case V_SCALE: {
+        const double S = SCALES[r.range(0, 6)];
+        if (r.coin()) for (auto& v : x) v = r.gauss() * S;
+        else for (auto& v : x) v = double(r.range(-3, 3)) * 0.37 * S;
+        break;
+    }
+    case V_POW2: {
+        static const int es[11] = {-1070, -1022, -500, -52, -1, 0, 1, 52, 53, 500, 1000};
+        const int e = es[r.range(0, 10)], spread = r.range(0, 2);
+        const bool both = r.coin();
+        for (auto& v : x) v = step_ulp(std::ldexp((both && r.coin()) ? -1.0 : 1.0, e + r.range(0, spread)), r.range(-2, 2));
+        break;
+    }
+    case V_MIXSCALE: {
+        std::vector<double> pool(r.range(2, 12));
+        for (auto& v : pool) v = r.gauss() * SCALES[r.range(0, 6)];
+        for (auto& v : x) {
+            const int c = r.range(0, 9);
+            v = (c == 0) ? (r.coin() ? 0.0 : -0.0) : (c <= 4) ? pool[r.range(0, int(pool.size()) - 1)] : r.gauss() * SCALES[r.range(0, 6)];
+        }
+        break;
+    }
+    }
+    return x;
+}
+// stream class for a window of length n: the stream is periodic with period P in {n-1, n, n+1}, except that every period
+// moves each position by one ulp (all up / all down / a random direction per position): the sample that enters the window
+// differs from the one that leaves (P = n) or from its neighbour across the window boundary only in the last bit
+static std::vector<double> gen_boundary(vh::Rng& r, int len, int n) {
+    const int P = std::max(1, n + r.range(-1, 1));
+    std::vector<double> cur(P);
+    const double S = SCALES[r.range(0, 6)];
+    const int bm = r.range(0, 3);
+    const double b0 = (bm == 3 ? TWO52 : (0.5 + r.unit()) * S) * (r.coin() ? 1 : -1);
+    for (int j = 0; j < P; ++j) cur[j] = (bm == 0) ? r.gauss() * S : (bm == 1) ? double(r.range(-2, 2)) * S : step_ulp(b0, r.range(0, 2));
+    const int mode = r.range(0, 2);
+    std::vector<double> x(len);
+    for (int k = 0; k < len; ++k) {
+        const int j = k % P;
+        x[k] = cur[j];
+        const double dir = (mode == 0) ? INFINITY : (mode == 1) ? -INFINITY : (r.coin() ? INFINITY : -INFINITY);
+        cur[j] = std::nextafter(cur[j], dir);
+    }
     return x;
 }
 
@@ -64,16 +184,18 @@ static std::string jv(const std::vector<double>& v, size_t cap = 48) {
 static bool same_bits(double a, double b) { return std::memcmp(&a, &b, 8) == 0; }
 
 // witness: generator coordinates (seed, case id, class, n) + the data itself when short
-static std::string wit(const char* op, long long caseid, int cls, const std::vector<double>& x, const std::string& extra = "") {
+// class of a case by name: the content classes above (`cn`), the value classes below (`vcls_name`), or a scenario name
+static std::string cn(int cls) { return cls >= 0 ? cls_name(cls) : "explicit"; }
+static std::string wit(const char* op, long long caseid, const std::string& cls, const std::vector<double>& x, const std::string& extra = "") {
     std::string s = std::string("{\"op\":\"") + op + "\",\"seed\":" + std::to_string(g_seed) + ",\"case\":" + std::to_string(caseid) +
-                    ",\"cls\":\"" + (cls >= 0 ? cls_name(cls) : "explicit") + "\",\"n\":" + std::to_string(x.size());
+                    ",\"cls\":\"" + cls + "\",\"n\":" + std::to_string(x.size());
     if (!extra.empty()) s += "," + extra;
     s += ",\"x\":" + jv(x) + "}";
     return s;
 }
 
 // ------------------------------------------------------------------------------------ sort
-static void chk_sort(const std::vector<double>& xv, bool ascend, bool corr, long long caseid, int cls) {
+static void chk_sort(const std::vector<double>& xv, bool ascend, bool corr, long long caseid, const std::string& cls) {
     const int n = int(xv.size());
     const arr_real x = to_arr(xv);
     const std::string w = wit("sort", caseid, cls, xv, std::string("\"ascend\":") + (ascend ? "1" : "0"));
@@ -83,7 +205,7 @@ static void chk_sort(const std::vector<double>& xv, bool ascend, bool corr, long
     const arr_real& s = res.first;
     const arr_int& idx = res.second;
     out.n_oracle++;
-    out.stat(std::string("sort_") + (cls >= 0 ? cls_name(cls) : "explicit"));
+    out.stat("sort_" + cls);
     if (s.size() != n || idx.size() != n) { out.fail("C16:sort-size", w); return; }
     std::vector<char> seen(n, 0);
     bool perm = true, gather = true, order = true;
@@ -107,6 +229,7 @@ static void chk_sort(const std::vector<double>& xv, bool ascend, bool corr, long
         out.corr(std::string("sort ") + (ascend ? "1 " : "0 ") + hxv(xv), hxv(sv));
     }
 }
+static void chk_sort(const std::vector<double>& xv, bool ascend, bool corr, long long caseid, int cls) { chk_sort(xv, ascend, corr, caseid, cn(cls)); }
 
 // ------------------------------------------------------------------------------------ median
 // k-th order statistic (0-based) by counting: v with #{< v} <= k < #{<= v}
@@ -118,25 +241,39 @@ static ld order_stat_count(const std::vector<double>& x, int k) {
     }
     return std::nanl("");
 }
-static ld median_ref(const std::vector<double>& x, ld* scale = nullptr) {
+// The two middle order statistics a = s[n/2], b = s[(n-1)/2] are values OF THE INPUT, so they are known exactly.
+// The median is a itself for odd n (no arithmetic at all) and the mean of a and b for even n.  The reference is
+// therefore EXACT: got == a (odd), got == fl(a + b) / 2 (even; IEEE addition is commutative, so the value does not
+// depend on the operand order).  A tolerance of "a few ulps" would hide a wrong order statistic whenever
+// neighbouring values of the window are 1 ulp apart (clusters of adjacent doubles, integers >= 2^52, k * denorm_min).
+struct Mid { double a, b; };
+static Mid median_mid(const std::vector<double>& x) {
     const int n = int(x.size());
-    ld a, b;
+    Mid m;
     if (n <= 128) {
-        a = order_stat_count(x, n / 2);
-        b = order_stat_count(x, (n - 1) / 2);
+        m.a = double(order_stat_count(x, n / 2));
+        m.b = double(order_stat_count(x, (n - 1) / 2));
     } else {
-        std::vector<ld> r(x.begin(), x.end());
+        std::vector<double> r(x.begin(), x.end());
         std::stable_sort(r.begin(), r.end());
-        a = r[n / 2];
-        b = r[(n - 1) / 2];
+        m.a = r[n / 2];
+        m.b = r[(n - 1) / 2];
     }
-    if (scale) *scale = std::max(fabsl(a), fabsl(b));
-    return (n % 2 == 1) ? a : (a + b) / 2;
+    return m;
 }
-// one rounding of a+b (the halving is exact): <= 2^-53 * |a+b| <= 2^-52 * max(|a|,|b|)
-static bool med_close(double got, ld ref, ld scale) { return fabsl(ld(got) - ref) <= 4.5e-16L * scale + 1e-300L; }
+static double mid_value(const Mid& m, int n) {
+    if (n % 2 == 1) return m.a;
+    volatile double s = m.a + m.b;   // one rounding, then an exact halving (inexact only in the denormal range)
+    return s / 2;
+}
+// numeric equality (so -0.0 == +0.0: which of two zeros is "the" median is not specified)
+static bool med_same(double got, double want) { return got == want || (got != got && want != want); }
+// a + b overflows although a and b are finite: the mean of the two middle values exists but the formula returns inf
+static void note_overflow(const Mid& m, int n, const char* who) {
+    if (n % 2 == 0 && std::isfinite(m.a) && std::isfinite(m.b) && !std::isfinite(m.a + m.b)) out.stat(std::string(who) + "_even_mean_overflows_to_inf");
+}
 
-static void chk_median(const std::vector<double>& xv, bool corr, long long caseid, int cls) {
+static void chk_median(const std::vector<double>& xv, bool corr, long long caseid, const std::string& cls) {
     const arr_real x = to_arr(xv);
     const std::string w = wit("median", caseid, cls, xv);
     vh::set_current("C16:crash:median", w);
@@ -144,16 +281,20 @@ static void chk_median(const std::vector<double>& xv, bool corr, long long casei
     vh::clear_current();
     out.n_oracle++;
     out.stat(xv.size() % 2 ? "median_odd" : "median_even");
-    ld sc;
-    const ld ref = median_ref(xv, &sc);
-    if (!med_close(m, ref, sc)) out.fail("C16:median-wrong", w);
+    const Mid mid = median_mid(xv);
+    const double want = mid_value(mid, int(xv.size()));
+    note_overflow(mid, int(xv.size()), "median");
+    out.stat("median_" + cls);
+    if (!med_same(m, want))
+        out.fail("C16:median-wrong", wit("median", caseid, cls, xv, "\"got\":" + vh::jnum(m) + ",\"want\":" + vh::jnum(want) + ",\"got_bits\":\"" + vh::hx(m) + "\",\"want_bits\":\"" + vh::hx(want) + "\""));
     for (int i = 0; i < x.size(); ++i) if (!same_bits(x[i], xv[i])) { out.fail("C16:median-mutates-input", w); break; }
     if (corr) out.corr("median " + hxv(xv), vh::hx(m));
 }
+static void chk_median(const std::vector<double>& xv, bool corr, long long caseid, int cls) { chk_median(xv, corr, caseid, cn(cls)); }
 
 // ------------------------------------------------------------------------------------ MedianFilter
 // median of the n values w[0..n-1] (brute force: insertion sort of a copy)
-static ld window_median(const double* w, int n, ld* scale) {
+static double window_median(const double* w, int n) {
     double buf[80];
     for (int i = 0; i < n; ++i) {
         double v = w[i];
@@ -161,9 +302,9 @@ static ld window_median(const double* w, int n, ld* scale) {
         while (j > 0 && buf[j - 1] > v) { buf[j] = buf[j - 1]; --j; }
         buf[j] = v;
     }
-    const ld a = buf[n / 2], b = buf[(n - 1) / 2];
-    *scale = std::max(fabsl(a), fabsl(b));
-    return (n % 2 == 1) ? a : (a + b) / 2;
+    const Mid m{buf[n / 2], buf[(n - 1) / 2]};
+    note_overflow(m, n, "window");
+    return mid_value(m, n);
 }
 
 static std::vector<int> gen_frames(vh::Rng& r, int total, int n, int style) {
@@ -188,7 +329,7 @@ static std::vector<int> gen_frames(vh::Rng& r, int total, int n, int style) {
 }
 
 static void chk_mf(int n, double init, bool default_ctor, const std::vector<double>& xs, const std::vector<int>& frames,
-                   bool corr, long long caseid, int cls, int style) {
+                   bool corr, long long caseid, const std::string& cls, int style) {
     const std::string w = wit("MedianFilter", caseid, cls, xs,
                               "\"order\":" + std::to_string(n) + ",\"init\":" + vh::jnum(init) + ",\"framing\":" + std::to_string(style) +
                                   ",\"nframes\":" + std::to_string(frames.size()));
@@ -215,19 +356,19 @@ static void chk_mf(int n, double init, bool default_ctor, const std::vector<doub
     out.stat("mf_samples", (long long)xs.size());
     out.stat("mf_frames", (long long)frames.size());
     out.stat(std::string("mf_framing_") + std::to_string(style));
-    out.stat(std::string("mf_") + cls_name(cls));
+    out.stat("mf_" + cls);
     // reference: extended stream init^n ++ xs; y[k] = median(ext[k+1 .. k+n])
     std::vector<double> ext(n, init);
     ext.insert(ext.end(), xs.begin(), xs.end());
     for (size_t k = 0; k < xs.size(); ++k) {
-        ld sc;
-        const ld ref = window_median(&ext[k + 1], n, &sc);
-        if (!med_close(y[k], ref, sc)) {
+        const double ref = window_median(&ext[k + 1], n);
+        if (!med_same(y[k], ref)) {
             std::vector<double> win(ext.begin() + k + 1, ext.begin() + k + 1 + n);
             out.fail("C16:medianfilter-wrong",
                      wit("MedianFilter", caseid, cls, xs,
                          "\"order\":" + std::to_string(n) + ",\"init\":" + vh::jnum(init) + ",\"framing\":" + std::to_string(style) + ",\"k\":" +
-                             std::to_string(k) + ",\"got\":" + vh::jnum(y[k]) + ",\"want\":" + vh::jnum(double(ref)) + ",\"window\":" + jv(win, 64)));
+                             std::to_string(k) + ",\"got\":" + vh::jnum(y[k]) + ",\"want\":" + vh::jnum(ref) + ",\"got_bits\":\"" + vh::hx(y[k]) + "\",\"want_bits\":\"" +
+                             vh::hx(ref) + "\",\"window\":" + jv(win, 64)));
             break;
         }
     }
@@ -236,9 +377,278 @@ static void chk_mf(int n, double init, bool default_ctor, const std::vector<doub
         out.corr(lhs, hxv(y));
     }
 }
+static void chk_mf(int n, double init, bool default_ctor, const std::vector<double>& xs, const std::vector<int>& frames, bool corr, long long caseid, int cls,
+                   int style) {
+    chk_mf(n, init, default_ctor, xs, frames, corr, caseid, cn(cls), style);
+}
+
+// ------------------------------------------------------------------------------------ medfilt (declaration; used by the lifetime scenarios)
+static void chk_medfilt(int n, const std::vector<double>& xv, bool corr, long long caseid, const std::string& cls);
+
+// ------------------------------------------------------------------------------------ MedianFilter: object lifetime and value category
+// Every MedianFilter OBJECT must return the median of ITS OWN window: the initial history of the object it descends from
+// (by construction, copy, move, container fill, assignment where available) followed by the samples fed to it and to its
+// ancestors BEFORE the copy was taken.  A random program creates objects from each other, feeds them different data in an
+// interleaved order, destroys some, and passes frames / consumes results through temporaries in several ways; calls that
+// must throw are interleaved and must leave every object (and the stateless functions) unaffected.
+struct Trk {
+    MedianFilter* f = nullptr;
+    int n = 0;
+    double init = 0;
+    std::vector<double> xs, ys;   // samples / outputs along the whole ancestry
+    std::vector<int> frames;
+    std::string lineage;
+    bool alive = true;
+    int pool_slot = -1;   // index into the owner list (objects in banks are not destroyed individually)
+    int id = 0;
+};
+static Correlation kind_of(int k) { return k == 0 ? Correlation::Pearson : k == 1 ? Correlation::Spearman : Correlation::Kendall; }
+static MedianFilter pass_by_value(MedianFilter f) { return f; }   // copy in, move out
+template <class F>
+static bool try_copy_assign(F& dst, const F& src) {   // only where the class offers it (const member => deleted today)
+    if constexpr (std::is_copy_assignable_v<F>) { dst = src; return true; }
+    else { (void)dst; (void)src; return false; }
+}
+
+struct LifeCtx {
+    std::vector<std::unique_ptr<MedianFilter>> singles;          // individually owned objects (destroyable)
+    std::vector<std::unique_ptr<std::vector<MedianFilter>>> banks;   // vector fill / vector copy
+    std::vector<Trk> objs;
+    long long caseid = 0;
+    int datamode = 0;
+    double base = 1.0;
+    bool failed = false;
+    std::string log;   // the program, for the witness
+};
+
+static double life_sample(vh::Rng& r, const LifeCtx& c, int id) {
+    switch (c.datamode) {
+    case 0: return double(r.range(-50, 50)) + 1000.0 * id;            // integer levels per object (the filter-bank picture)
+    case 1: return r.gauss() + 10.0 * id;
+    case 2: return step_ulp(c.base, r.range(0, 3) + 2 * (id % 3));     // overlapping 1-ulp clusters
+    case 3: return TWO52 + double(r.range(0, 7)) + 4.0 * id;          // integer time stamps
+    default: return (r.range(0, 3) == 0) ? (r.coin() ? 0.0 : -0.0) : double(r.range(-3, 3)) * c.base;
+    }
+}
+
+// feed one frame to object t through one of several value categories; every output is checked against the exact window median
+static void life_feed(vh::Rng& r, LifeCtx& c, Trk& t, int l, int how) {
+    std::vector<double> fr(l);
+    for (auto& v : fr) v = life_sample(r, c, t.id);
+    const arr_real a = to_arr(fr);
+    std::vector<double> y;
+    if (l < 2 && how >= 2 && how <= 3) how = 0;
+    c.log += "f" + std::to_string(t.id) + ":" + std::to_string(l) + "/" + std::to_string(how) + " ";
+    vh::set_current("C16:crash:MedianFilter-lifetime", "{\"op\":\"MedianFilter-lifetime\",\"seed\":" + std::to_string(g_seed) + ",\"case\":" + std::to_string(c.caseid) + ",\"program\":\"" + c.log + "\"}");
+    switch (how) {
+    case 0: { const arr_real yy = t.f->process(a); for (int i = 0; i < yy.size(); ++i) y.push_back(yy[i]); break; }
+    case 1: { const arr_real yy = (*t.f)(a); for (int i = 0; i < yy.size(); ++i) y.push_back(yy[i]); break; }
+    case 2: {   // the frame is a temporary made from a slice of a larger array; the result is bound to a const reference
+        const int p = r.range(0, 5), q = r.range(0, 5);
+        std::vector<double> big(p, 7.25);
+        big.insert(big.end(), fr.begin(), fr.end());
+        big.insert(big.end(), q, -3.5);
+        const arr_real bg = to_arr(big);
+        const arr_real& yy = t.f->process(bg.slice(p, p + l));
+        for (int i = 0; i < yy.size(); ++i) y.push_back(yy[i]);
+        break;
+    }
+    case 3: {   // concatenation temporary, result consumed by a range-for over the returned temporary
+        const int h = r.range(1, l - 1);
+        const arr_real a1 = to_arr(std::vector<double>(fr.begin(), fr.begin() + h)), a2 = to_arr(std::vector<double>(fr.begin() + h, fr.end()));
+        for (double v : t.f->process(a1 | a2)) y.push_back(v);
+        break;
+    }
+    case 4: {   // arithmetic temporary (x * 1 is the identity on every double incl. -0.0 and denormals), result moved
+        arr_real yy;
+        yy = t.f->process(a * 1.0);
+        for (int i = 0; i < yy.size(); ++i) y.push_back(yy[i]);
+        break;
+    }
+    default: {   // temporary constructed from a std::vector
+        const arr_real& yy = (*t.f)(arr_real(fr));
+        for (int i = 0; i < yy.size(); ++i) y.push_back(yy[i]);
+        break;
+    }
+    }
+    vh::clear_current();
+    out.stat("mf_life_feed_how_" + std::to_string(how));
+    for (int i = 0; i < l; ++i) if (!same_bits(a[i], fr[i])) { c.failed = true; out.fail("C16:medianfilter-mutates-input", "{\"case\":" + std::to_string(c.caseid) + "}"); break; }
+    if (int(y.size()) != l) {
+        c.failed = true;
+        out.fail("C16:medianfilter-frame-size", "{\"op\":\"MedianFilter-lifetime\",\"seed\":" + std::to_string(g_seed) + ",\"case\":" + std::to_string(c.caseid) + ",\"program\":\"" + c.log + "\"}");
+        return;
+    }
+    // own history: init^n ++ xs
+    const size_t k0 = t.xs.size();
+    t.xs.insert(t.xs.end(), fr.begin(), fr.end());
+    t.frames.push_back(l);
+    std::vector<double> ext(t.n, t.init);
+    const size_t from = k0 >= size_t(t.n) ? k0 - t.n : 0;   // only the tail is needed
+    ext.insert(ext.end(), t.xs.begin() + from, t.xs.end());
+    // ext index of sample k (global) = n + (k - from); window of output k = ext[idx - n + 1 .. idx]
+    for (int i = 0; i < l; ++i) {
+        const size_t k = k0 + i, idx = t.n + (k - from);
+        const double ref = window_median(&ext[idx - t.n + 1], t.n);
+        out.n_oracle++;
+        if (!med_same(y[i], ref) && !c.failed) {
+            c.failed = true;
+            std::vector<double> win(ext.begin() + idx - t.n + 1, ext.begin() + idx + 1);
+            out.fail("C16:medianfilter-copy-not-independent",
+                     "{\"op\":\"MedianFilter-lifetime\",\"seed\":" + std::to_string(g_seed) + ",\"case\":" + std::to_string(c.caseid) + ",\"order\":" + std::to_string(t.n) +
+                         ",\"init\":" + vh::jnum(t.init) + ",\"object\":" + std::to_string(t.id) + ",\"lineage\":\"" + t.lineage + "\",\"sample_of_object\":" + std::to_string(k) +
+                         ",\"got\":" + vh::jnum(y[i]) + ",\"want\":" + vh::jnum(ref) + ",\"own_window\":" + jv(win, 64) + ",\"program\":\"" + c.log + "\"}");
+        }
+        t.ys.push_back(y[i]);
+    }
+}
+
+static Trk& life_new(LifeCtx& c, const Trk& parent, MedianFilter* f, const std::string& how, int slot) {
+    Trk t = parent;
+    t.f = f;
+    t.alive = true;
+    t.pool_slot = slot;
+    t.id = int(c.objs.size());
+    t.lineage = parent.lineage + ">" + how;
+    c.objs.push_back(t);
+    c.log += how + "(" + std::to_string(parent.id) + ")=" + std::to_string(t.id) + " ";
+    return c.objs.back();
+}
+
+static void life_failed_call(vh::Rng& r, LifeCtx& c, int n) {
+    const int which = r.range(0, 4);
+    bool threw = false;
+    c.log += "X" + std::to_string(which) + " ";
+    vh::set_current("C16:crash:failed-call", "{\"op\":\"failed-call\",\"which\":" + std::to_string(which) + "}");
+    try {
+        switch (which) {
+        case 0: { MedianFilter f(2); (void)f; break; }
+        case 1: { MedianFilter f(-1, 3.0); (void)f; break; }
+        case 2: { arr_real x = {1.0, 2.0, 3.0, 4.0}; (void)medfilt(x, 2); break; }
+        case 3: { arr_real x; (void)medfilt(x, n); break; }
+        default: { const arr_real x = {1.0, 2.0, 3.0}, y = {1.0, 2.0}; (void)dsplib::corr(x, y, kind_of(r.range(0, 2))); break; }
+        }
+    } catch (const std::exception&) { threw = true; }
+    vh::clear_current();
+    out.stat(threw ? "life_failed_call_threw" : "life_failed_call_returned");
+    // valid stateless calls right after the failed one
+    const std::vector<double> x = genv(r, r.range(1, 2 * n), r.range(0, NVCLS - 1));
+    chk_medfilt(n, x, false, c.caseid, "after_failed_call");
+    chk_median(x, false, c.caseid, "after_failed_call");
+    chk_sort(x, r.coin(), false, c.caseid, "after_failed_call");
+}
+
+static void lifetime_case(vh::Rng& r, int n, int datamode, int nops, long long caseid, bool corr) {
+    LifeCtx c;
+    c.caseid = caseid;
+    c.datamode = datamode;
+    c.base = (0.5 + r.unit()) * SCALES[r.range(0, 6)] * (r.coin() ? 1 : -1);
+    c.objs.reserve(4096);   // references into objs stay valid
+    const int im = r.range(0, 3);
+    const bool dflt = (im == 0);
+    const double init = (im == 0) ? 0.0 : (im == 1) ? life_sample(r, c, 0) : (im == 2) ? -0.0 : life_sample(r, c, 1);
+    {
+        c.singles.emplace_back(dflt ? new MedianFilter(n) : new MedianFilter(n, init));
+        Trk t;
+        t.f = c.singles.back().get();
+        t.n = n;
+        t.init = init;
+        t.lineage = dflt ? "ctor(n)" : "ctor(n,init)";
+        t.pool_slot = 0;
+        c.objs.push_back(t);
+    }
+    // prototype use: half of the cases copy a FRESH prototype (the filter-bank picture), the others a running filter
+    if (r.coin()) life_feed(r, c, c.objs[0], r.range(1, 3 * n), r.range(0, 5));
+    for (int op = 0; op < nops && int(c.objs.size()) < 4000; ++op) {
+        std::vector<int> alive;
+        for (size_t i = 0; i < c.objs.size(); ++i) if (c.objs[i].alive) alive.push_back(int(i));
+        const int si = alive[r.range(0, int(alive.size()) - 1)];
+        const int what = r.range(0, 99);
+        if (what < 50 || alive.size() > 24) {
+            int l;
+            switch (r.range(0, 5)) {
+            case 0: l = 0; break;
+            case 1: l = 1; break;
+            case 2: l = r.range(1, 3); break;
+            case 3: l = r.range(n - 1, n + 1); break;
+            case 4: l = r.range(1, 2 * n + 3); break;
+            default: l = 137; break;
+            }
+            life_feed(r, c, c.objs[si], l, r.range(0, 5));
+        } else if (what < 60) {   // copy construction
+            c.singles.emplace_back(new MedianFilter(*c.objs[si].f));
+            life_new(c, c.objs[si], c.singles.back().get(), "copy", int(c.singles.size()) - 1);
+            out.stat("life_copy_ctor");
+        } else if (what < 66) {   // through a by-value parameter and return
+            c.singles.emplace_back(new MedianFilter(pass_by_value(*c.objs[si].f)));
+            life_new(c, c.objs[si], c.singles.back().get(), "byvalue", int(c.singles.size()) - 1);
+            out.stat("life_by_value");
+        } else if (what < 74) {   // bank: vector fill constructor
+            const int k = r.range(2, 4);
+            c.banks.emplace_back(new std::vector<MedianFilter>(size_t(k), *c.objs[si].f));
+            for (int j = 0; j < k; ++j) life_new(c, c.objs[si], &(*c.banks.back())[size_t(j)], "fill[" + std::to_string(j) + "]", -1);
+            out.stat("life_vector_fill");
+        } else if (what < 79) {   // copy of a whole bank
+            if (!c.banks.empty()) {
+                const size_t b = size_t(r.range(0, int(c.banks.size()) - 1));
+                std::vector<int> members;
+                for (size_t j = 0; j < c.banks[b]->size(); ++j)
+                    for (size_t i = 0; i < c.objs.size(); ++i)
+                        if (c.objs[i].f == &(*c.banks[b])[j]) members.push_back(int(i));
+                if (members.size() == c.banks[b]->size()) {
+                    c.banks.emplace_back(new std::vector<MedianFilter>(*c.banks[b]));
+                    for (size_t j = 0; j < members.size(); ++j) life_new(c, c.objs[size_t(members[j])], &(*c.banks.back())[j], "bankcopy[" + std::to_string(j) + "]", -1);
+                    out.stat("life_bank_copy");
+                }
+            }
+        } else if (what < 85) {   // move construction: the source is never used again
+            if (c.objs[si].pool_slot >= 0 && alive.size() > 0) {
+                c.singles.emplace_back(new MedianFilter(std::move(*c.objs[si].f)));
+                life_new(c, c.objs[si], c.singles.back().get(), "move", int(c.singles.size()) - 1);
+                c.objs[si].alive = false;
+                out.stat("life_move_ctor");
+            }
+        } else if (what < 90) {   // copy assignment (if the class has one)
+            const int di = alive[r.range(0, int(alive.size()) - 1)];
+            if (di != si && try_copy_assign(*c.objs[di].f, *c.objs[si].f)) {
+                Trk& d = c.objs[di];
+                const Trk& s0 = c.objs[si];
+                d.n = s0.n; d.init = s0.init; d.xs = s0.xs; d.ys = s0.ys; d.frames = s0.frames;
+                d.lineage += ">assigned-from(" + std::to_string(s0.id) + ")";
+                c.log += "assign(" + std::to_string(s0.id) + "->" + std::to_string(d.id) + ") ";
+                out.stat("life_copy_assign");
+            } else out.stat("life_copy_assign_unavailable");
+        } else if (what < 95) {   // destroy an individually owned object; the others must not notice
+            if (c.objs[si].pool_slot >= 0 && alive.size() > 1) {
+                c.singles[size_t(c.objs[si].pool_slot)].reset();
+                c.objs[si].alive = false;
+                c.objs[si].f = nullptr;
+                c.log += "destroy(" + std::to_string(c.objs[si].id) + ") ";
+                out.stat("life_destroy");
+            }
+        } else {
+            life_failed_call(r, c, n);
+        }
+    }
+    // every surviving object is used once more after all copies were taken
+    for (size_t i = 0; i < c.objs.size(); ++i)
+        if (c.objs[i].alive) life_feed(r, c, c.objs[i], 2 * n + 1, int(i) % 6);
+    out.stat("mf_lifetime_cases");
+    out.stat("mf_lifetime_objects", (long long)c.objs.size());
+    // correspondence: an object's whole ancestry is ONE stream for the (pure) model
+    if (corr && !c.objs.empty()) {
+        int sent = 0;
+        for (size_t i = c.objs.size(); i-- > 0 && sent < 2;) {
+            const Trk& t = c.objs[i];
+            if (!t.alive || t.xs.size() > 2500) continue;
+            out.corr("mf " + std::to_string(t.n) + " " + vh::hx(t.init) + " " + std::to_string(t.frames.size()) + vh::join_ints(t.frames) + " " + hxv(t.xs), hxv(t.ys));
+            ++sent;
+        }
+    }
+}
 
 // ------------------------------------------------------------------------------------ medfilt
-static void chk_medfilt(int n, const std::vector<double>& xv, bool corr, long long caseid, int cls) {
+static void chk_medfilt(int n, const std::vector<double>& xv, bool corr, long long caseid, const std::string& cls) {
     arr_real x = to_arr(xv);
     const std::string w = wit("medfilt", caseid, cls, xv, "\"order\":" + std::to_string(n));
     vh::set_current("C16:crash:medfilt", w);
@@ -250,6 +660,7 @@ static void chk_medfilt(int n, const std::vector<double>& xv, bool corr, long lo
     if (n < 3 || xv.empty()) { out.stat(threw ? "medfilt_threw_outside_domain" : "medfilt_ok_outside_domain"); return; }   // outside the property's domain: CORR only
     out.n_oracle++;
     out.stat(n % 2 ? "medfilt_order_odd" : "medfilt_order_even");
+    out.stat("medfilt_" + cls);
     out.stat(int(xv.size()) < n ? "medfilt_shorter_than_window" : "medfilt_longer_than_window");
     if (threw) { out.fail("C16:medfilt-throws", w); return; }
     if (y.size() != int(xv.size())) { out.fail("C16:medfilt-size", w); return; }
@@ -259,26 +670,39 @@ static void chk_medfilt(int n, const std::vector<double>& xv, bool corr, long lo
     std::vector<double> win(n);
     for (int k = 0; k < L; ++k) {
         for (int j = -n1; j <= n2; ++j) win[j + n1] = (k + j >= 0 && k + j < L) ? xv[k + j] : 0.0;
-        ld sc;
-        const ld ref = window_median(win.data(), n, &sc);
-        if (!med_close(y[k], ref, sc)) {
+        const double ref = window_median(win.data(), n);
+        if (!med_same(y[k], ref)) {
             out.fail("C16:medfilt-wrong", wit("medfilt", caseid, cls, xv, "\"order\":" + std::to_string(n) + ",\"k\":" + std::to_string(k) + ",\"got\":" +
-                                                                              vh::jnum(y[k]) + ",\"want\":" + vh::jnum(double(ref))));
+                                                                              vh::jnum(y[k]) + ",\"want\":" + vh::jnum(ref) + ",\"got_bits\":\"" + vh::hx(y[k]) + "\",\"want_bits\":\"" + vh::hx(ref) + "\""));
             break;
         }
     }
 }
+static void chk_medfilt(int n, const std::vector<double>& xv, bool corr, long long caseid, int cls) { chk_medfilt(n, xv, corr, caseid, cn(cls)); }
 
 // ------------------------------------------------------------------------------------ corr
+// Reference r in long double, robust for offset data and 1-ulp chains: the samples are first taken relative to a pivot
+// (x[i] - x[0] is exact in long double for values of similar magnitude, e.g. integers at 2^52, where x[i] - mean is not),
+// then centred, and the residual sums of the centred values are corrected for (sxy - sa*sb/n, ...).
 static ld pearson_ref(const std::vector<double>& x, const std::vector<double>& y) {
     const int n = int(x.size());
-    ld mx = 0, my = 0;
-    for (int i = 0; i < n; ++i) { mx += x[i]; my += y[i]; }
-    mx /= n; my /= n;
-    ld sxy = 0, sxx = 0, syy = 0;
-    for (int i = 0; i < n; ++i) { const ld a = x[i] - mx, b = y[i] - my; sxy += a * b; sxx += a * a; syy += b * b; }
+    if (n == 0) return std::nanl("");
+    std::vector<ld> u(n), v(n);
+    ld mu = 0, mv = 0;
+    for (int i = 0; i < n; ++i) { u[i] = ld(x[i]) - ld(x[0]); v[i] = ld(y[i]) - ld(y[0]); mu += u[i]; mv += v[i]; }
+    mu /= n; mv /= n;
+    ld sxy = 0, sxx = 0, syy = 0, sa = 0, sb = 0;
+    for (int i = 0; i < n; ++i) { const ld a = u[i] - mu, b = v[i] - mv; sa += a; sb += b; sxy += a * b; sxx += a * a; syy += b * b; }
+    sxy -= sa * sb / n; sxx -= sa * sa / n; syy -= sb * sb / n;
     return sxy / sqrtl(sxx * syy);
 }
+// max - min of a sample: the scale of the centred data
+static double spread_of(const std::vector<double>& x) {
+    if (x.empty()) return 0;
+    const auto mm = std::minmax_element(x.begin(), x.end());
+    return *mm.second - *mm.first;
+}
+static bool spread_in_range(const std::vector<double>& x) { const double s = spread_of(x); return s >= 1e-70 && s <= 1e70; }
 static ld spearman_ref(const std::vector<double>& x, const std::vector<double>& y) {   // tie-free: 1 - 6 sum d^2 / (n (n^2-1)), ranks by counting
     const int n = int(x.size());
     ld sd = 0;
@@ -302,8 +726,16 @@ static ld kendall_ref(const std::vector<double>& x, const std::vector<double>& y
 static const Correlation KINDS[3] = {Correlation::Pearson, Correlation::Spearman, Correlation::Kendall};
 static const char* KNAME[3] = {"pearson", "spearman", "kendall"};
 static ld g_maxerr[3] = {0, 0, 0};
-static const ld TOL[3] = {1e-9L, 1e-12L, 1e-13L};   // Pearson: rounding of the one-pass moment formula (measured); rank statistics are integer sums
+static const ld TOL[3] = {1e-9L, 1e-12L, 1e-13L};   // Pearson: rounding of the moment formula on the centred samples (measured); rank statistics are integer sums
 
+// The value-class probes of Pearson's r are failures (keys C16:corr-pearson-wrong-{scale,offset,ulpchain}).  They exposed the
+// cancellation of the one-pass moment formula for data with an offset (corr({1e8..1e8+3},{1..4}) = 0.79), repaired in /repo
+// a57e73f (sums over the centred samples).  What remains is a RANGE limit, not a definition error: the product of the two
+// variance terms under the root leaves the double range when scale_x * scale_y is outside about 1e-75 .. 1e75; scale pairs with
+// a member outside [1e-70, 1e70] are therefore measured only (class "scale_outofrange": statistics, no failure); likewise 1-ulp
+// chains whose spread max - min (the scale of the centred data) is outside that range (chains of denormals, of values near
+// 1e-300 or above 1e86): class "ulpchain_outofrange".
+static bool pearson_class_strict(const char* pclass) { const size_t l = std::strlen(pclass); return !(l >= 11 && std::strcmp(pclass + l - 11, "_outofrange") == 0); }
 static std::string wit2(const char* what, int kind, long long caseid, const std::vector<double>& x, const std::vector<double>& y, double got, double want) {
     return std::string("{\"op\":\"corr\",\"what\":\"") + what + "\",\"kind\":\"" + KNAME[kind] + "\",\"seed\":" + std::to_string(g_seed) + ",\"case\":" +
            std::to_string(caseid) + ",\"n\":" + std::to_string(x.size()) + ",\"x\":" + jv(x, 24) + ",\"y\":" + jv(y, 24) + ",\"got\":" + vh::jnum(got) +
@@ -311,7 +743,13 @@ static std::string wit2(const char* what, int kind, long long caseid, const std:
 }
 
 // mono: 0 none, +1 strictly increasing relation (affine when `affine`), -1 strictly decreasing
-static void chk_corr(const std::vector<double>& xv, const std::vector<double>& yv, bool corr, long long caseid, int mono = 0, bool affine = false) {
+// pclass: nullptr for the permutation data of the property's quantifier; otherwise the name of a value class (scale, offset,
+// ulpchain).  r, rho and tau are invariant under positive scaling and translation of either sample, so the same references
+// and tolerances apply; a Pearson value that is off on such a class is reported under its own key
+// C16:corr-pearson-wrong-<pclass> (with the outcome statistics corr_pearson_<pclass>_{ok,off,nonfinite}), the other Pearson
+// clauses (range, symmetry, +-1) are consequences and not repeated for it.
+static void chk_corr(const std::vector<double>& xv, const std::vector<double>& yv, bool corr, long long caseid, int mono = 0, bool affine = false,
+                     const char* pclass = nullptr) {
     const arr_real x = to_arr(xv), y = to_arr(yv);
     const int n = int(xv.size());
     for (int k = 0; k < 3; ++k) {
@@ -325,6 +763,12 @@ static void chk_corr(const std::vector<double>& xv, const std::vector<double>& y
         out.stat(std::string("corr_") + KNAME[k]);
         const ld ref = (k == 0) ? pearson_ref(xv, yv) : (k == 1) ? spearman_ref(xv, yv) : kendall_ref(xv, yv);
         const ld err = fabsl(ld(r) - ref);
+        if (k == 0 && pclass) {
+            out.stat(std::string("corr_pearson_") + pclass + (!(r == r) || std::isinf(r) ? "_nonfinite" : (err <= TOL[0] ? "_ok" : "_off")));
+            if (pearson_class_strict(pclass) && !(err <= TOL[0])) out.fail(std::string("C16:corr-pearson-wrong-") + pclass, wit2(pclass, k, caseid, xv, yv, r, double(ref)));
+            continue;
+        }
+        if (pclass) out.stat(std::string("corr_rank_") + pclass);
         if (err == err && err > g_maxerr[k]) g_maxerr[k] = err;
         if (!(err <= TOL[k])) out.fail(std::string("C16:corr-") + KNAME[k] + "-wrong", wit2("value", k, caseid, xv, yv, r, double(ref)));
         if (!(fabsl(ld(r) - ld(rs)) <= 1e-12L)) out.fail(std::string("C16:corr-") + KNAME[k] + "-asymmetric", wit2("corr(x,y) vs corr(y,x)", k, caseid, xv, yv, r, rs));
@@ -384,6 +828,59 @@ int main(int argc, char** argv) {
                 chk_sort(x, true, corr, cid, cls);
                 chk_sort(x, false, corr && (n % 2 == 0 || n <= 24), cid, cls);
                 chk_median(x, corr, cid, cls);
+            }
+        }
+        // value classes (which doubles occur): every length x every value class (quick: one class per length in rotation + all on a grid)
+        for (int n = 1; n <= NMAX; ++n) {
+            for (int v = 0; v < NVCLS; ++v) {
+                const bool grid = (n <= 40) || (n % 97 == 0) || n >= NMAX - 1;
+                if (!T && !grid && (n + v) % NVCLS != 0) continue;
+                vh::Rng r(a.seed * 1000003ULL + (++cid));
+                const std::vector<double> x = genv(r, n, v);
+                const bool corr = (n <= 16) || (n <= 200 && (n + v) % 11 == 0) || (n == NMAX && v < 3);
+                chk_sort(x, true, corr, cid, vcls_name(v));
+                chk_sort(x, false, corr && (n % 2 == 0 || n <= 16), cid, vcls_name(v));
+                chk_median(x, corr, cid, vcls_name(v));
+            }
+        }
+        // every arrangement of short nextafter chains with repeats: all sequences over {v, v+1ulp, v+2ulp} up to length 5, three bases
+        for (int n = 1; n <= 5; ++n) {
+            int tot = 1;
+            for (int i = 0; i < n; ++i) tot *= 3;
+            for (int bi = 0; bi < 3; ++bi) {
+                const double base = (bi == 0) ? 1.0 : (bi == 1) ? TWO52 : -0.0;   // from -0.0: -0, +denorm_min, 2 denorm_min
+                for (int c = 0; c < tot; ++c) {
+                    std::vector<double> x(n);
+                    int m = c;
+                    for (int i = 0; i < n; ++i) { x[i] = step_ulp(base, m % 3); m /= 3; }
+                    ++cid;
+                    const bool corr = T || (c % 3 == bi);
+                    chk_sort(x, true, corr, cid, "chain3");
+                    chk_sort(x, false, corr, cid, "chain3");
+                    chk_median(x, corr, cid, "chain3");
+                }
+            }
+        }
+        // lengths far beyond the sweep (single large calls; 2^16, 2^17, multiples of 49152, a prime > 46340), content and value classes
+        {
+            std::vector<int> big = {65537, 131073};
+            if (T) for (int n : {46349, 65536, 98304, 131072, 147456, 196608, 262145}) big.push_back(n);
+            int k = 0;
+            for (int n : big) {
+                for (int rep = 0; rep < (T ? 3 : 1); ++rep, ++k) {
+                    vh::Rng r(a.seed * 1000003ULL + (++cid));
+                    const bool val = (k % 2 == 0);
+                    const int c = val ? r.range(0, NVCLS - 1) : r.range(0, NCLS - 1);
+                    const std::vector<double> x = val ? genv(r, n, c) : gen(r, n, c);
+                    const std::string name = std::string("big_") + (val ? vcls_name(c) : cls_name(c));
+                    chk_sort(x, true, false, cid, name);
+                    chk_sort(x, false, false, cid, name);
+                    chk_median(x, false, cid, name);
+                    // small calls after the large one
+                    const std::vector<double> s5 = genv(r, 5, V_ULP);
+                    chk_sort(s5, true, true, cid, "after_big");
+                    chk_median(s5, true, cid, "after_big");
+                }
             }
         }
         // explicit small cases: all sequences over {0,1,2} of length <= 5 (every tie pattern)
@@ -454,6 +951,88 @@ int main(int argc, char** argv) {
                 }
             }
         }
+        // value classes x orders x framings: the 7 value classes + the window-boundary class (one ulp across the window boundary);
+        // quick: 3 (class, framing) pairs per order in rotation, 3000-sample streams; thorough: every class x every framing, 10^4 samples
+        {
+            const int NV = NVCLS + 1, nstyles = 6;
+            const int LEN2 = T ? 10000 : 3000;
+            for (int n = 3; n <= 64; ++n)
+                for (int v = 0; v < NV; ++v)
+                    for (int style = 0; style < nstyles; ++style) {
+                        const bool run = T || (v == n % NV && style == n % nstyles) || (v == (n + 3) % NV && style == (n + 1) % nstyles) ||
+                                         (v == ((n % 2) ? int(V_ULP) : NVCLS) && style == (n + 4) % nstyles);
+                        if (!run) continue;
+                        vh::Rng r(a.seed * 1000003ULL + (++cid));
+                        const std::vector<double> xs = (v == NVCLS) ? gen_boundary(r, LEN2, n) : genv(r, LEN2, v);
+                        const std::string name = (v == NVCLS) ? "v_boundary" : vcls_name(v);
+                        // initial history: default, a data sample, a neighbour (1 ulp) of a data sample, -0.0, a far value at the data's scale
+                        const int im = r.range(0, 4);
+                        double init = 0;
+                        bool dflt = false;
+                        const double smp = xs[r.range(0, std::min(LEN2 - 1, 2 * n))];
+                        switch (im) {
+                        case 0: dflt = true; break;
+                        case 1: init = smp; break;
+                        case 2: init = step_ulp(smp, r.coin() ? 1 : -1); break;
+                        case 3: init = -0.0; break;
+                        case 4: init = smp * (r.coin() ? 4 : -4); break;
+                        }
+                        out.stat(std::string("mf_vinit_mode_") + std::to_string(im));
+                        chk_mf(n, init, dflt, xs, gen_frames(r, LEN2, n, style), false, cid, name, style);
+                        const bool corr = T ? (style == (n + v) % nstyles) : true;
+                        if (corr) {
+                            const int CL = 400;
+                            std::vector<double> xc(xs.begin(), xs.begin() + CL);
+                            const int st = (style == 0 || style == 5) ? 3 : style;
+                            chk_mf(n, init, dflt, xc, gen_frames(r, CL, n, st), true, cid, name, st);
+                        }
+                    }
+        }
+        // every short stream over a 3-member nextafter chain {v, v+1ulp, v+2ulp}: orders 3..5 (thorough ..6), all 3^L streams of
+        // length L = n + 3 (every pattern of "the neighbour leaves first"), init = each member
+        for (int n = 3; n <= (T ? 6 : 5); ++n) {
+            const int L = n + 3;
+            int tot = 1;
+            for (int i = 0; i < L; ++i) tot *= 3;
+            for (int bi = 0; bi < 2; ++bi) {
+                const double base = bi ? TWO52 : 1.0;
+                for (int c = 0; c < tot; ++c) {
+                    std::vector<double> xs(L);
+                    int m = c;
+                    for (int i = 0; i < L; ++i) { xs[i] = step_ulp(base, m % 3); m /= 3; }
+                    ++cid;
+                    chk_mf(n, step_ulp(base, c % 3), false, xs, {L}, T ? (c % 9 == 0) : (c % 41 == 0), cid, "chain3", 0);
+                }
+            }
+        }
+        // large single frames after small ones: a frame above 2^16 and one above 2^17 (thorough: also exact multiples of 49152 and 65536)
+        {
+            std::vector<int> orders = {4, 33, 64};
+            if (T) orders = {3, 4, 5, 16, 31, 48, 63, 64};
+            int k = 0;
+            for (int n : orders) {
+                std::vector<std::vector<int>> plans = {{5, 1, n, 65537, 3, 0, 131073, 2, n + 1}};
+                if (T) { plans.push_back({7, 65536, 1, 98304, 131072}); plans.push_back({1, 196608, 2, 147456, 3}); plans.push_back({262145, 1}); }
+                for (const auto& frames : plans) {
+                    vh::Rng r(a.seed * 1000003ULL + (++cid));
+                    int total = 0;
+                    for (int l : frames) total += l;
+                    const int c = k++ % (NVCLS + 3);
+                    const std::vector<double> xs = (c < NVCLS) ? genv(r, total, c) : (c == NVCLS) ? gen_boundary(r, total, n) : gen(r, total, c == NVCLS + 1 ? DISTINCT : REPEATED);
+                    const std::string name = std::string("bigframe_") + ((c < NVCLS) ? vcls_name(c) : (c == NVCLS) ? "v_boundary" : (c == NVCLS + 1) ? "distinct" : "repeated");
+                    chk_mf(n, xs[0], false, xs, frames, false, cid, name, 6);
+                }
+            }
+        }
+        // object lifetime: copies / moves / banks of filters, interleaved with failed calls
+        {
+            const int NL = T ? 600 : 90;
+            for (int i = 0; i < NL; ++i) {
+                vh::Rng r(a.seed * 1000003ULL + (++cid));
+                const int n = (i < 62) ? 3 + i : r.range(3, 64);
+                lifetime_case(r, n, i % 5, T ? 80 : 40, cid, T ? (i % 6 == 0) : (i % 3 == 0));
+            }
+        }
         // short streams: fewer samples than the window (the initial history dominates), incl. zero samples
         for (int n = 3; n <= 64; n += (T ? 1 : 7))
             for (int len : {0, 1, 2, n - 1, n, n + 1}) {
@@ -486,6 +1065,32 @@ int main(int argc, char** argv) {
                     const std::vector<double> x = gen(r, len, cls);
                     chk_medfilt(n, x, rep == 0 && (len <= 2 * n + 1 || (n % 8 == 0)), cid, cls);
                 }
+            }
+        }
+        // value classes (incl. the window-boundary class for this order)
+        for (int n = 3; n <= 64; ++n) {
+            std::vector<int> lens = {n - 1, n + 1, 2 * n + 1, 257};
+            if (T) { lens.push_back(1); lens.push_back(n); lens.push_back(2000); }
+            int k = 0;
+            for (int len : lens)
+                for (int rep = 0; rep < (T ? NVCLS + 1 : 1); ++rep, ++k) {
+                    vh::Rng r(a.seed * 1000003ULL + (++cid));
+                    const int v = T ? rep : (n + k) % (NVCLS + 1);
+                    const std::vector<double> x = (v == NVCLS) ? gen_boundary(r, len, n) : genv(r, len, v);
+                    chk_medfilt(n, x, T ? (rep == (n + len) % (NVCLS + 1) && len <= 257) : (len <= 2 * n + 1 || n % 8 == 0), cid, (v == NVCLS) ? "v_boundary" : vcls_name(v));
+                }
+        }
+        // large single calls (above 2^16 / 2^17), then a small one
+        {
+            std::vector<std::pair<int, int>> big = {{5, 70001}, {64, 131073}};
+            if (T) for (auto pr : std::vector<std::pair<int, int>>{{3, 65536}, {4, 98304}, {33, 131072}, {64, 196608}, {8, 262145}}) big.push_back(pr);
+            int k = 0;
+            for (auto pr : big) {
+                vh::Rng r(a.seed * 1000003ULL + (++cid));
+                const int c = k++ % (NVCLS + 2);
+                const std::vector<double> x = (c < NVCLS) ? genv(r, pr.second, c) : (c == NVCLS) ? gen_boundary(r, pr.second, pr.first) : gen(r, pr.second, DISTINCT);
+                chk_medfilt(pr.first, x, false, cid, std::string("big_") + ((c < NVCLS) ? vcls_name(c) : (c == NVCLS) ? "v_boundary" : "distinct"));
+                chk_medfilt(pr.first, genv(r, 2 * pr.first, V_ULP), true, cid, "after_big");
             }
         }
         // outside the domain (correspondence only): order < 3, empty input
@@ -536,6 +1141,93 @@ int main(int argc, char** argv) {
                     const bool corr = (n <= 4) || (n == 5 && cnt % 11 == 0) || (n >= 6 && cnt % (T ? 997 : 211) == 0);
                     chk_corr(apply_perm(px, vx), apply_perm(py, vy), corr, cid, mono, useint);
                 }
+        }
+        // value classes for the rank statistics: samples whose members are 1 (or 1..2) ulps apart -- still tie-free, ranks and
+        // concordance are decided in the last bit: nextafter chains from bases at every scale, integers at 2^52, multiples of
+        // denorm_min, a chain through zero; random permutations, and the strictly monotone relations (= +-1)
+        {
+            const int NU = T ? 400 : 80;
+            for (int i = 0; i < NU; ++i) {
+                vh::Rng r(a.seed * 1000003ULL + (++cid));
+                const int n = (i < 10) ? 2 + i : ((i % 3 == 0) ? r.range(401, 2000) : r.range(2, 400));
+                auto chain = [&](int kind) {
+                    double b;
+                    switch (kind) {
+                    case 0: b = 1.0; break;
+                    case 1: b = TWO52; break;
+                    case 2: b = DMIN; break;                          // k * denorm_min
+                    case 3: b = step_ulp(-0.0, -(n / 2)); break;      // through zero
+                    case 4: b = -2 * TWO52 + 1; break;                // negative integers, rising towards -2^52
+                    default: b = (0.5 + r.unit()) * SCALES[r.range(0, 6)] * (r.coin() ? 1 : -1); break;
+                    }
+                    const bool two = r.coin();
+                    std::vector<double> v(n);
+                    for (int j = 0; j < n; ++j) { v[j] = b; b = step_ulp(b, two ? r.range(1, 2) : 1); }
+                    return v;
+                };
+                const int kx = i % 6, ky = (i / 6) % 6;
+                const std::vector<double> vx = chain(kx), vy = chain(ky);
+                const auto px = rand_perm(r, n);
+                std::vector<int> py;
+                int mono = 0;
+                if (i % 4 == 1) { py = px; mono = 1; }
+                else if (i % 4 == 3) { py.resize(n); for (int j = 0; j < n; ++j) py[j] = n - 1 - px[j]; mono = -1; }
+                else py = rand_perm(r, n);
+                const bool inr = spread_in_range(vx) && spread_in_range(vy);
+                chk_corr(apply_perm(px, vx), apply_perm(py, vy), n <= 200 && i % 2 == 0, cid, mono, false, inr ? "ulpchain" : "ulpchain_outofrange");
+            }
+        }
+        // scale classes: x and y at absolute scales 1e-300 .. 1e300, all 100 pairs (all three coefficients are scale invariant).  The
+        // rank statistics are checked at every scale; Pearson for both scales within 1e-70 .. 1e70, measured only beyond
+        {
+            static const double CS[10] = {1e-300, 1e-100, 1e-70, 1e-17, 1e-8, 1.0, 1e8, 1e70, 1e100, 1e300};
+            const int NS = T ? 100 * 4 : 100;
+            for (int i = 0; i < NS; ++i) {
+                vh::Rng r(a.seed * 1000003ULL + (++cid));
+                const int sx = i % 10, sy = (i / 10) % 10;
+                const int n = (i % 5 == 0 && i >= 20) ? r.range(300, 2000) : r.range(2, (i < 20) ? 6 : 60);
+                std::vector<double> vx = inc_values(r, n, i % 3 == 0), vy = inc_values(r, n, i % 4 == 0);
+                for (auto& v : vx) v *= CS[sx];
+                for (auto& v : vy) v *= CS[sy];
+                const auto ok = [](int s) { return s >= 2 && s <= 7; };   // 1e-70 .. 1e70: Pearson is held to the reference
+                const bool pearson_in_range = ok(sx) && ok(sy);
+                const auto px = rand_perm(r, n), py = rand_perm(r, n);
+                out.stat(pearson_in_range ? "corr_scale_pair_inside_1e-70_1e70" : "corr_scale_pair_outofrange");
+                chk_corr(apply_perm(px, vx), apply_perm(py, vy), n <= 60, cid, 0, false, pearson_in_range ? "scale" : "scale_outofrange");
+            }
+        }
+        // offset classes: x = c + (spread of order n), c = +-1e3 .. +-2^52 (r, rho, tau are translation invariant); random
+        // permutations and affine relations y = a x + b (all three = +-1)
+        {
+            static const double OFFS[6] = {1e3, 1e6, 1e8, 1e12, TWO52, 1e15};
+            const int NO = T ? 240 : 48;
+            for (int i = 0; i < NO; ++i) {
+                vh::Rng r(a.seed * 1000003ULL + (++cid));
+                const int n = (i < 6) ? 4 : ((i % 5 == 0) ? r.range(300, 2000) : r.range(2, 60));
+                const double c = OFFS[i % 6] * ((i / 6) % 2 ? -1 : 1);
+                std::vector<double> vx = inc_values(r, n, true), vy = inc_values(r, n, (i / 12) % 2 == 0);
+                for (auto& v : vx) v += c;
+                const auto px = rand_perm(r, n);
+                int mono = 0;
+                std::vector<double> x = apply_perm(px, vx), y;
+                if (i % 3 == 0) {   // affine with exactly representable results: y = +-2 x + 3 or y = +-(x - c)
+                    mono = (i % 2) ? 1 : -1;
+                    y.resize(n);
+                    for (int j = 0; j < n; ++j) y[j] = (i % 4 < 2) ? mono * 2 * x[j] + 3 : mono * (x[j] - c);
+                } else y = apply_perm(rand_perm(r, n), vy);
+                chk_corr(x, y, n <= 60 && i % 2 == 0, cid, mono, true, "offset");
+            }
+        }
+        // lengths just beyond the sweep limit (thorough: also a prime length > 46340)
+        {
+            std::vector<int> ns = {2001 + int(rng.next() % 2000)};
+            if (T) for (int n : {2001, 2048, 4099, 8191, 46349}) ns.push_back(n);
+            for (int n : ns) {
+                vh::Rng r(a.seed * 1000003ULL + (++cid));
+                const std::vector<double> vx = inc_values(r, n, false), vy = inc_values(r, n, n % 2 == 0);
+                chk_corr(apply_perm(rand_perm(r, n), vx), apply_perm(rand_perm(r, n), vy), false, cid);
+                out.stat("corr_beyond_sweep_length");
+            }
         }
         // random permutations of larger length against the O(n^2) definitions
         const int NR = T ? 600 : 120;
